@@ -111,6 +111,7 @@ func (P) Generate(g *core.Gen) {
 	cs = append(cs, txTestCases("tx_invalid.json", false)...)
 	every := g.N(10, 1)
 	cs = append(cs, taprootRefCases(every, int(g.Seed%uint64(every)))...)
+	cs = append(cs, mutateVectors(r.Fork(), cs, g.N(1, 6))...)
 	// generated programs
 	t0 := time.Now()
 	tick := func(what string) {
@@ -122,9 +123,9 @@ func (P) Generate(g *core.Gen) {
 	keys := makeKeys(r, 5)
 	cs = append(cs, genRegress()...)
 	cs = append(cs, genLimits(g, r, keys)...)
-	cs = append(cs, genSoup(g, r, keys, g.N(6000, 60000))...)
-	cs = append(cs, genSigs(g, r, keys, g.N(3500, 35000))...)
-	cs = append(cs, genWitnessMisc(g, r, keys, g.N(1800, 18000))...)
+	cs = append(cs, genSoup(g, r, keys, g.N(6000, 150000))...)
+	cs = append(cs, genSigs(g, r, keys, g.N(3500, 90000))...)
+	cs = append(cs, genWitnessMisc(g, r, keys, g.N(1800, 45000))...)
 	tick("spends built")
 	emitSpends(g, cs)
 	tick("oracles resolved")
